@@ -274,6 +274,55 @@ UNITS = [
 _SWAP = {b"[": b"(", b"]": b")", b"(": b"[", b")": b"]", b"{": b"(", b"}": b")"}
 
 
+def strip_exts(toks, remove):
+    """Remove the extension names in `remove` from every require command of the
+    token list (dropping a require whose list becomes empty)."""
+    out = []
+    i = 0
+    n = len(toks)
+    while i < n:
+        if toks[i].lower() == b"require":
+            j = i + 1
+            names = []
+            while j < n and toks[j] != b";":
+                if toks[j][:1] == b'"':
+                    names.append(toks[j])
+                j += 1
+            keep = [x for x in names if x[1:-1].decode("utf-8", "replace") not in remove]
+            if keep:
+                out.append(toks[i])
+                if len(keep) == 1 and len(names) == 1:
+                    out.append(keep[0])
+                else:
+                    out.append(b"[")
+                    for k, x in enumerate(keep):
+                        if k:
+                            out.append(b",")
+                        out.append(x)
+                    out.append(b"]")
+                out.append(b";")
+            i = j + 1
+            continue
+        out.append(toks[i])
+        i += 1
+    return out
+
+
+def required_exts(toks):
+    out = []
+    i = 0
+    while i < len(toks):
+        if toks[i].lower() == b"require":
+            j = i + 1
+            while j < len(toks) and toks[j] != b";":
+                if toks[j][:1] == b'"':
+                    out.append(toks[j][1:-1].decode("utf-8", "replace"))
+                j += 1
+            i = j
+        i += 1
+    return out
+
+
 @st.composite
 def mutate(draw, toks, vocab=None):
     """One single-edit mutant of the token list. Returns (kind, tokens)."""
@@ -281,7 +330,7 @@ def mutate(draw, toks, vocab=None):
     toks = list(toks)
     n = len(toks)
     kind = draw(st.sampled_from(["delete", "insert", "replace", "swap", "dup", "bracket",
-                                 "unit", "unit", "truncate", "retype", "retype"]))
+                                 "unit", "unit", "truncate", "retype", "retype", "unrequire"]))
     if n == 0:
         kind = "insert"
     if kind == "delete":
@@ -310,6 +359,11 @@ def mutate(draw, toks, vocab=None):
     elif kind == "unit":
         i = draw(st.integers(0, n))
         toks[i:i] = draw(st.sampled_from(UNITS))
+    elif kind == "unrequire":
+        exts = required_exts(toks)
+        if not exts:
+            return ("noop", toks)
+        toks = strip_exts(toks, {draw(st.sampled_from(exts))})
     elif kind == "retype":
         # change the type of one argument: string <-> list <-> number, tag <-> string
         idx = [i for i, t in enumerate(toks) if t[:1] in (b'"', b":") or t[:1].isdigit() or t.startswith(b"text:")]
